@@ -345,7 +345,7 @@ class RIBFamily:
         known = {k.get("id"): k for k in vlib.load_known() if k.get("status") == "open"}
         kf_seen = collections.Counter()
         for (ln, ev, comps) in mism:
-            rec = segs.lines(ln, ln)[0] if len(byseg) < 10 else {}
+            rec = segs.lines(ln, ln)[0] if len(byseg) < 40 else {}
             mine = []
             for c in comps:
                 if c.startswith("KF:"):
@@ -508,14 +508,14 @@ SRV_PROPERTIES = "ElecMonotone LowerNeverSteals OnlyPrimaryWrites ElecOnlyByElec
 
 def srv_cfg(Sess=("s1", "s2", "s3"), HiVals=(0, 1), LoVals=(1, 2), ParamMsgs="good", WithBadMsgs=False, OpShapes="nh",
             StampModes=("last", "any", "none"), FwdModes=(True,), AckModes=("RIB",), MaxMsgs=5, MaxOpen=2, WithClose=True,
-            WithFlushRPC=False, WithSendFail=False, EmitOn=False, view=True, invariants=True):
+            WithFlushRPC=False, WithSendFail=False, MultiOps=False, EmitOn=False, view=True, invariants=True):
     lines = ["SPECIFICATION MCSpec", "CONSTANTS", '  DefaultNI = "DEFAULT"',
              f"  Sess = {tlaset(Sess)}", f"  HiVals = {tlaset(HiVals)}", f"  LoVals = {tlaset(LoVals)}",
              f"  ParamMsgs = {q(ParamMsgs)}", f"  WithBadMsgs = {str(WithBadMsgs).upper()}", f"  OpShapes = {q(OpShapes)}",
              f"  StampModes = {tlaset(StampModes)}", f"  FwdModes = {tlaset(FwdModes)}", f"  AckModes = {tlaset(AckModes)}",
              f"  MaxMsgs = {MaxMsgs}", f"  MaxOpen = {MaxOpen}", f"  WithClose = {str(WithClose).upper()}",
              f"  WithFlushRPC = {str(WithFlushRPC).upper()}", f"  WithSendFail = {str(WithSendFail).upper()}",
-             f"  EmitOn = {str(EmitOn).upper()}"]
+             f"  MultiOps = {str(MultiOps).upper()}", f"  EmitOn = {str(EmitOn).upper()}"]
     if view:
         lines.append("VIEW View")
     if invariants:
@@ -542,11 +542,14 @@ def srv_attr(comp, ev, rec):
             return {"C08", "C09"}
         return rib_attr(comp, ev, rec)
     if comp.startswith("msgend:") or comp.startswith("open:"):
-        return {"C04", "C10"}      # state changed outside any RIB call of the primary
+        owners = {"C04", "C10"}      # state changed outside any RIB call of the primary
+        if (rec.get("end") or {}).get("code") not in (None, "", "OK"):
+            owners.add("C09")      # ... by a message that ended its RPC with an error: a violation with a side effect
+        return owners
     table = {
         "sst:last": {"C04", "C05"},
         "resp:elec": {"C05"}, "sst:cur": {"C05", "C04"}, "sst:master": {"C05", "C04"}, "elecNotMax": {"C05"},
-        "ribCallUnexpected": {"C04"}, "strayrib": {"C04"}, "ribCallMissing": {"C04", "C06"},
+        "ribCallUnexpected": {"C04"}, "ribCallInsteadOfError": {"C09", "C04"}, "strayrib": {"C04"}, "ribCallMissing": {"C04", "C06"},
         "opResp": {"C06"}, "extraResp": {"C06"}, "opsUnanswered": {"C06"}, "opOrder": {"C06"}, "foreignResult": {"C06"},
         "respAfterRibError": {"C06", "C12"}, "respInsteadOfError": {"C09", "C04"},
         "end": {"C09"}, "resp": {"C09"}, "sst:sess": {"C09"}, "msgUnexpected": {"C09"}, "openUnexpected": {"C09"},
@@ -556,7 +559,10 @@ def srv_attr(comp, ev, rec):
         "hang": {"C10", "C11"}, "panic": {"C12"},
     }
     if comp in table:
-        return table[comp]
+        owners = set(table[comp])
+        if ev == "msgend" and comp.startswith("sst:") and (rec.get("end") or {}).get("code") not in (None, "", "OK"):
+            owners.add("C09")      # the message ended its RPC with an error and nevertheless changed session / election state
+        return owners
     return rib_attr(comp, ev, rec)
 
 
@@ -749,7 +755,12 @@ _srv("C07",
 _srv("C09",
      mc={"quick": [dict(MaxMsgs=4, MaxOpen=2, ParamMsgs="all", WithBadMsgs=True, AckModes=("RIB", "RIB_FIB"), HiVals=(0,), LoVals=(1,), StampModes=("last", "none"))],
          "thorough": [dict(MaxMsgs=5, MaxOpen=3, ParamMsgs="all", WithBadMsgs=True, AckModes=("RIB", "RIB_FIB"), HiVals=(0,), LoVals=(1, 2), StampModes=("last", "none"))]},
-     sims=_S_SIMS, exh=_S_EXH, random_cfg=_rnd(["fsm", "elec"], 80, 800))
+     sims={"quick": _S_SIMS["quick"] + [(dict(_S_SIM_ELEC, MultiOps=True, MaxOpen=2), 150, 300)],
+           "thorough": _S_SIMS["thorough"] + [(dict(_S_SIM_ELEC, MultiOps=True, MaxOpen=2), 2500, 300)]},
+     # every sequence in which one negotiated, elected session sends requests of two differently stamped operations
+     exh={"quick": _S_EXH["quick"] + [dict(MaxMsgs=4, MaxOpen=1, HiVals=(0,), LoVals=(1, 2), OpShapes="none", StampModes=("last",), MultiOps=True, WithClose=False)],
+          "thorough": _S_EXH["thorough"] + [dict(MaxMsgs=5, MaxOpen=2, HiVals=(0,), LoVals=(1, 2), OpShapes="none", StampModes=("last",), MultiOps=True, WithClose=False)]},
+     random_cfg=_rnd(["fsm", "elec"], 80, 800))
 
 
 class CompositeFamily:
@@ -1429,6 +1440,144 @@ for _p in ("C01", "C08"):
 
 
 # ---------------------------------------------------------------------------
+# session-interleaving family (C04, C05, C11): GribiServerSched / _MC / Trace - the handlers of concurrent Modify
+# sessions and a Flush caller interleaved at their gates; TLC-generated schedules replayed into the real server
+
+def sched_cfg(Sess=("s1", "s2"), LoVals=(1,), MaxMsgs=3, MaxOpsPerReq=2, WithFlush=False, WithClose=False, Prefix="none", EmitOn=False, view=True):
+    lines = ["SPECIFICATION MCSpec", "CONSTANTS", f"  Sess = {tlaset(Sess)}", f"  LoVals = {tlaset(LoVals)}", f"  MaxMsgs = {MaxMsgs}",
+             f"  MaxOpsPerReq = {MaxOpsPerReq}", f"  WithFlush = {str(WithFlush).upper()}", f"  WithClose = {str(WithClose).upper()}",
+             f"  Prefix = {q(Prefix)}", f"  EmitOn = {str(EmitOn).upper()}"]
+    if EmitOn:
+        lines.append("INVARIANTS Emit")
+        if view:
+            lines.append("VIEW View")
+    else:
+        lines += ["VIEW View", "INVARIANTS SchedQuiescent RepliesAtLeastAnnounced", "PROPERTIES SchedMonotone OnlyPrimarySnapshotWrites"]
+    lines.append("CHECK_DEADLOCK FALSE")
+    return "\n".join(lines) + "\n"
+
+
+def sched_attr(comp):
+    return {"schedCur": {"C05", "C04", "C11"}, "schedMaster": {"C05", "C04", "C11"}, "schedLast": {"C04", "C11"}, "schedSessions": {"C09", "C10", "C11"},
+            "schedRib": {"C04", "C11"}, "schedReplies": {"C04", "C05", "C06", "C11"}, "schedFlushVerdict": {"C08", "C11"},
+            "schedStall": {"C11", "C10"}, "schedHang": {"C11", "C10"}, "schedNotEnabled": {"C11"}, "schedSetup": {"C11"}}.get(comp, set())
+
+
+class SchedFamily:
+    FAMILY = "sched"
+
+    def __init__(self, prop):
+        self.prop = prop
+
+    def run(self, ctx):
+        res = Result()
+        quick = ctx.tier == "quick"
+        ctx.build_vh()
+        mcs, states, trans = [], 0, 0
+        for kw in ([dict(LoVals=(1, 2), MaxMsgs=4, WithFlush=True, WithClose=True)] if quick else
+                   [dict(LoVals=(1, 2), MaxMsgs=5, WithFlush=True, WithClose=True), dict(Sess=("s1", "s2", "s3"), LoVals=(1, 2), MaxMsgs=4, WithFlush=True),
+                    dict(LoVals=(1,), MaxMsgs=4, Prefix="takeover", WithFlush=True)]):
+            run = require_ok(ctx.tlc("GribiServerSched_MC", None, name="mc-sched", workers=vlib.NCPU, cfg_text=sched_cfg(**kw), timeout=3000, heap="24g"),
+                             "model checking GribiServerSched_MC")
+            states += run.distinct
+            trans += run.generated
+            mcs.append({"module": "GribiServerSched_MC", "constants": kw, "distinct_states": run.distinct, "generated": run.generated, "secs": round(run.secs, 1)})
+        # schedules: every history of small instances (history kept in the fingerprint) + simulation of a rich one
+        walks = []
+        exh = ([dict(LoVals=(1,), MaxMsgs=3), dict(LoVals=(1,), MaxMsgs=2, Prefix="takeover")] if quick else
+               [dict(LoVals=(1, 2), MaxMsgs=3), dict(LoVals=(1,), MaxMsgs=4), dict(LoVals=(1,), MaxMsgs=3, Prefix="takeover"),
+                dict(LoVals=(1,), MaxMsgs=3, WithFlush=True, MaxOpsPerReq=1)])
+        for kw in exh:
+            run = require_ok(ctx.tlc("GribiServerSched_MC", None, name="emit-sched", workers=1, cfg_text=sched_cfg(EmitOn=True, view=False, **kw), timeout=3000, heap="16g"),
+                             "exhaustive schedule emission")
+            walks += run.emitted()
+        nexh = len(walks)
+        for i, (kw, num) in enumerate([(dict(Sess=("s1", "s2", "s3"), LoVals=(1, 2, 3), MaxMsgs=7, WithFlush=True, WithClose=True), 400 if quick else 8000),
+                                       (dict(LoVals=(1, 2), MaxMsgs=6, Prefix="takeover", WithFlush=True), 200 if quick else 4000)]):
+            run = require_ok(ctx.tlc("GribiServerSched_MC", None, name="sim-sched", simulate=num, depth=200, seed=ctx.seed * 100 + i,
+                                     cfg_text=sched_cfg(EmitOn=True, **kw), timeout=3000), "schedule simulation")
+            walks += run.emitted()
+        walks = list(dict.fromkeys(walks))
+        wf = os.path.join(ctx.work, "swalks.txt")
+        with open(wf, "w") as f:
+            for w in walks:
+                f.write("@@" + w + "\n")
+        trace = os.path.join(ctx.work, "strace.ndjson")
+        p = ctx.run_vh(["sched-run", "-in", wf, "-out", trace], timeout=3000)
+        if p.returncode != 0:
+            raise Infra("vh sched-run failed: " + p.stdout[-2000:] + p.stderr[-4000:])
+        info = json.loads(p.stdout.strip().splitlines()[-1])
+        cfg = 'SPECIFICATION STSpec\nCONSTANTS\n  TraceFile = "trace.ndjson"\nPOSTCONDITION TraceAccepted\nCHECK_DEADLOCK FALSE\n'
+        run = ctx.tlc("GribiServerSchedTrace", None, name="validate-sched", workers=1, cfg_text=cfg, extra_files={trace: "trace.ndjson"}, timeout=3000, heap="12g")
+        matched, total, mism = parse_trace_report(run)
+        if matched != total:
+            raise Infra(f"trace validation stopped at line {matched + 1} of {total}\n" + run.tail())
+        segs = Segments(trace, '{"ev":"sstart"')
+        byseg = collections.OrderedDict()
+        other = collections.Counter()
+        for (ln, ev, comps) in mism:
+            mine = [c for c in comps if self.prop in sched_attr(c)]
+            for c in comps:
+                if self.prop not in sched_attr(c):
+                    other["/".join(sorted(sched_attr(c))) + ":" + c] += 1
+            if mine:
+                byseg.setdefault(segs.segment_of(ln), []).append((ln, ev, mine))
+        for k, n in other.items():
+            res.notes.append(f"{n} deviation(s) attributed to {k} (not to {self.prop})")
+        for s0, items in list(byseg.items())[:3]:
+            ln, ev, mine = items[0]
+            evs = segs.lines(s0, ln)
+            rp = os.path.join(vlib.ROOT, "replays", f"{self.prop}-sched-{vlib.sha(json.dumps(evs, sort_keys=True))}.json")
+            json.dump({"property": self.prop, "family": self.FAMILY, "seed": ctx.seed, "tier": ctx.tier,
+                       "first_deviation": {"trace_line": ln, "event": ev, "components": mine},
+                       "schedule": [{k: e.get(k) for k in ("a", "s", "id", "ops")} for e in evs if e.get("ev") == "sstep"],
+                       "failing_event": evs[-1]}, open(rp, "w"), indent=1)
+            res.violations.append({"replay": rp, "what": f"session interleaving, step {evs[-1].get('i')} ({evs[-1].get('a')} {evs[-1].get('s')}): specification and implementation differ in {mine}"})
+        nontriv = 0
+        sample = []
+        with open(trace) as fh:
+            inflight, hit = set(), False
+            for line in fh:
+                if line.startswith('{"ev":"sstart"'):
+                    inflight, hit = set(), False
+                    continue
+                e = json.loads(line)
+                if e.get("ev") != "sstep":
+                    if hit:
+                        nontriv += 1
+                    continue
+                a, sname = e["a"], e.get("s")
+                if a in ("annbegin", "modbegin"):
+                    if inflight - {sname}:
+                        hit = True   # another handler is parked in the middle of its request
+                    inflight.add(sname)
+                elif a == "annend" or (a == "modop" and not e.get("left")):
+                    pass
+                if a == "annend":
+                    inflight.discard(sname)
+                if len(sample) < 14 and nontriv == 0:
+                    sample.append({k: e.get(k) for k in ("a", "s", "id", "ops")})
+        res.coverage = {
+            "states": states, "transitions": trans, "exhaustive": False, "traces_validated_against_impl": len(segs.starts), "evaluations": total,
+            "distinct_nontrivial": nontriv, "tlc_exhaustive_schedules": nexh, "tlc_emitted_schedules": len(walks),
+            "rule": ("one case = one interleaving of the handlers of 2-3 Modify sessions (and a Flush caller) generated by TLC from GribiServerSched_MC and replayed "
+                     "into one real server, one gate-to-gate segment per step; non-trivial = some request started while another session's handler was parked "
+                     "in the middle of its own request"),
+            "samples": [sample] if sample else [["none"]], "driver": info, "model_checking": mcs,
+        }
+        res.assumptions = ["sessions are negotiated (SINGLE_PRIMARY, PRESERVE, RIB ack) before the schedule starts; operations are next-hop ADDs in the default instance",
+                           "gates are outside every lock: a parked handler holds no lock, so segments of different handlers cannot overlap in the replay"]
+        return res
+
+    def replay(self, ctx, path):
+        raise Infra("session interleavings are replayed by re-running the check with the recorded seed")
+
+
+for _p in ("C04", "C05"):
+    REGISTRY[_p] = CompositeFamily(_p, [REGISTRY[_p], SchedFamily(_p)])
+
+
+# ---------------------------------------------------------------------------
 # concurrency family (C11): GribiServerCS / GribiServerCS_MC / GribiServerCSTrace + race detector
 
 class ConcFamily:
@@ -1503,7 +1652,7 @@ class ConcFamily:
         raise Infra("concurrent scenarios are re-run with ./check C11 --seed <seed>")
 
 
-REGISTRY["C11"] = ConcFamily("C11")
+REGISTRY["C11"] = CompositeFamily("C11", [ConcFamily("C11"), SchedFamily("C11")])
 
 
 # ---------------------------------------------------------------------------
